@@ -35,6 +35,38 @@ class C19(KernelProp):
     def make_gen(self, rng: random.Random, tier: str) -> KGen:
         return InjGen(rng, self.weights, **self.gen_kwargs)
 
+    def exhaustive(self, tier: str):
+        """One injected coroutine function called concurrently by two tasks whose current contexts are two
+        different children of one context: each call must get its own context's resources although both
+        suspend (in the inherited asynchronous factory) between resolving the first and the last parameter."""
+        def add(t, c, ty, name, val):
+            return {"op": "add", "t": t, "c": c, "types": [ty], "vt": ty, "name": name, "val": val, "desc": None,
+                    "badType": False, "badPos": False, "single": True, "td": None, "tdBad": False, "via": "method"}
+
+        cases = []
+        for backend in ("asyncio", "trio"):
+            for order in ((0, 1), (1, 0)):
+                for form, opt in (("plain", False), ("optional", True), ("str", False)):
+                    for n_static in (1, 2):
+                        deps = [{"param": f"r{k}", "ty": 0, "name": f"a{k}", "opt": opt, "form": form, "kind": "normal"}
+                                for k in range(n_static)]
+                        deps.append({"param": "last", "ty": 1, "name": "b", "opt": False, "form": "plain", "kind": "kwonly"})
+                        inj = {"op": "inject", "async": True, "deps": deps, "others": [], "badUnion": False, "future": False,
+                               "pair": 1}
+                        ops = [{"op": "new", "t": 0, "c": 1, "parent": None}, {"op": "enter", "t": 0, "c": 1},
+                               {"op": "addf", "t": 0, "c": 1, "types": [1], "name": "b", "fid": 1, "desc": None, "async": True,
+                                "gated": False, "failFirst": 0, "noneIn": False, "annot": False, "single": True, "via": "method"},
+                               {"op": "new", "t": 0, "c": 2, "parent": 1}, {"op": "new", "t": 0, "c": 3, "parent": 1},
+                               {"op": "spawn", "t": 0, "t2": 1},
+                               {"op": "enter", "t": 0, "c": 2}, {"op": "enter", "t": 1, "c": 3}]
+                        for k in range(n_static):
+                            ops += [add(0, 2, 0, f"a{k}", 10 + k), add(1, 3, 0, f"a{k}", 20 + k)]
+                        ops += [{**inj, "t": order[0], "first": True}, {**inj, "t": order[1], "first": False},
+                                {"op": "exit", "t": 1, "c": 3, "end": {"k": "ret"}}, {"op": "exit", "t": 0, "c": 2, "end": {"k": "ret"}},
+                                {"op": "exit", "t": 0, "c": 1, "end": {"k": "ret"}}]
+                        cases.append({"kind": "ctx", "backend": backend, "origin": f"pair:{order}:{form}:{n_static}", "ops": ops})
+        return cases
+
     def nontrivial(self, case, impl):
         for op, r in zip(case["ops"], impl):
             if op["op"] == "inject":
